@@ -42,7 +42,7 @@ func loadNodeKinds(w *World) nodeKinds {
 // the node pointer n.
 func (k nodeKinds) kindValueOf(v ssa.Value) (ssa.Value, bool) {
 	if c, ok := v.(*ssa.Call); ok {
-		if f := c.Call.StaticCallee(); f != nil && f.Name() == "getNodeType" && len(c.Call.Args) == 1 {
+		if f := c.Call.StaticCallee(); f != nil && nm(f) == "getNodeType" && len(c.Call.Args) == 1 {
 			return c.Call.Args[0], true
 		}
 	}
